@@ -104,15 +104,8 @@ def run(L, rep, tier, seed):
         data += smuggled
         cv = Conv(S, ctx, data, end='eof')
         sc = lambda m: {'kind': 'conversation', 'class': cls, 'position': pos, 'text': model_bytes(m, data).decode('latin1')}
-        urls = []
-        n_ok = 0
-        for i in range(4):
-            rq = cv.next()
-            if rq is None:
-                break
-            s = cv.summary(rq)
-            urls.append(s['url'].concrete())
-            cv.respond(rq)
+        reqs = drive(cv, hold=lambda i, rq: (pos == 1 and i == 0))
+        urls = [r['url'].concrete() for r in reqs]
         ctx.event('witness', cls)
         delivered_victim = b'/victim' in urls
         delivered_smuggled = b'/smuggled' in urls
